@@ -52,6 +52,14 @@ LinearDeps(e, d) ==
       ya == A[5] * Lo(e.dy, d[1]) + A[6] yb == A[5] * Hi(e.dy, d[1]) + A[6] IN
   AxisRange(e.sy, Min2(ya, yb), Max2(ya, yb)) \X AxisRange(e.sx, Min2(xa, xb), Max2(xa, xb))
 LinearComplete(e) == \A d \in AllTiles(e.dy, e.dx), s \in AllTiles(e.sy, e.sx) : Needs(e, d, s) => s \in LinearDeps(e, d)
+\* pairs in really different CRSs: the projection is an environment table.  e.need = <<dy, dx, sy, sx>> pairs whose overlap is beyond
+\* doubt (several destination pixel centres fall well inside the source tile, fresh pyproj), e.apart = the rasters are far apart
+RDeps(e, d) == LET m == {i \in DOMAIN e.deps : e.deps[i].d = d} IN IF m = {} THEN {} ELSE LET i == CHOOSE i \in m : TRUE IN {e.deps[i].s[j] : j \in DOMAIN e.deps[i].s}
+RGraphV(e) ==
+  IF \E i \in DOMAIN e.need : <<e.need[i][3], e.need[i][4]>> \notin RDeps(e, <<e.need[i][1], e.need[i][2]>>) THEN "overlapping_source_tile_missing_from_dependencies"
+  ELSE IF \E i \in DOMAIN e.deps : \E j \in DOMAIN e.deps[i].s : ~(e.deps[i].s[j][1] \in 0..(Len(e.sy) - 1) /\ e.deps[i].s[j][2] \in 0..(Len(e.sx) - 1)) THEN "dependency_on_a_tile_that_does_not_exist"
+  ELSE IF e.apart /\ \E i \in DOMAIN e.deps : e.deps[i].s # <<>> THEN "rasters_do_not_overlap_but_dependencies_listed"
+  ELSE "ok"
 GraphV(e) ==
   IF \E d \in AllTiles(e.dy, e.dx), s \in AllTiles(e.sy, e.sx) : Needs(e, d, s) /\ s \notin DepsOf(e, d) THEN "overlapping_source_tile_missing_from_dependencies"
   ELSE IF \E d \in AllTiles(e.dy, e.dx) : ~(DepsOf(e, d) \subseteq AllTiles(e.sy, e.sx)) THEN "dependency_on_a_tile_that_does_not_exist"
